@@ -17,75 +17,7 @@ sys.path.insert(0, os.path.dirname(os.path.dirname(os.path.abspath(__file__))))
 from ppsa.source import SourceProvider, AnalysisError  # noqa
 
 
-class Renamer(ast.NodeTransformer):
-    def __init__(self):
-        self.stack = []
-
-    def _locals(self, fn):
-        params = {a.arg for a in fn.args.posonlyargs + fn.args.args + fn.args.kwonlyargs}
-        if fn.args.vararg:
-            params.add(fn.args.vararg.arg)
-        if fn.args.kwarg:
-            params.add(fn.args.kwarg.arg)
-        assigned, banned = set(), set(params)
-        nested_used = set()
-
-        def visit(n, top):
-            for c in ast.iter_child_nodes(n):
-                if isinstance(c, (ast.FunctionDef, ast.AsyncFunctionDef, ast.Lambda, ast.ClassDef)):
-                    for x in ast.walk(c):
-                        if isinstance(x, ast.Name):
-                            nested_used.add(x.id)
-                    if isinstance(c, (ast.FunctionDef, ast.ClassDef)):
-                        banned.add(c.name)
-                    continue
-                if isinstance(c, (ast.Global, ast.Nonlocal)):
-                    banned.update(c.names)
-                if isinstance(c, ast.Name) and isinstance(c.ctx, (ast.Store, ast.Del)):
-                    assigned.add(c.id)
-                if isinstance(c, (ast.Import, ast.ImportFrom)):
-                    for a in c.names:
-                        banned.add((a.asname or a.name).split(".")[0])
-                if isinstance(c, ast.ExceptHandler) and c.name:
-                    banned.add(c.name)
-                if isinstance(c, (ast.ListComp, ast.SetComp, ast.DictComp, ast.GeneratorExp)):
-                    # comprehension variables are their own scope: do not rename (keeps the transformer simple)
-                    for g in c.generators:
-                        for x in ast.walk(g.target):
-                            if isinstance(x, ast.Name):
-                                banned.add(x.id)
-                visit(c, False)
-        visit(fn, True)
-        return {n for n in assigned if n not in banned and n not in nested_used and not n.startswith("__")}
-
-    def visit_FunctionDef(self, node):
-        names = self._locals(node)
-        self.stack.append(names)
-        node.body = [self.visit(s) for s in node.body]
-        self.stack.pop()
-        return node
-
-    def visit_Lambda(self, node):
-        return node
-
-    def visit_ClassDef(self, node):
-        self.stack.append(set())
-        node.body = [self.visit(s) for s in node.body]
-        self.stack.pop()
-        return node
-
-    def visit_Name(self, node):
-        if self.stack and node.id in self.stack[-1]:
-            return ast.copy_location(ast.Name(id=node.id + "_v", ctx=node.ctx), node)
-        return node
-
-
-def rewrite(text, mode):
-    tree = ast.parse(text)
-    if mode == "rename":
-        tree = Renamer().visit(tree)
-        ast.fix_missing_locations(tree)
-    return ast.unparse(tree) + "\n"
+from ppsa.rewrite import rewrite, Renamer  # noqa
 
 
 def run(args):
